@@ -525,7 +525,17 @@ func oracleC09(v *View, vd *Verdict) {
 func authPkt(g *Gen, kind int) refsn.Pkt {
 	switch kind {
 	case 0:
-		return refsn.Pkt{Type: refsn.AUTH, AuthMethod: "PLAIN", Data: refsn.PlainAuth("user"+fmt.Sprint(g.Intn(3)), []byte("pw"+fmt.Sprint(g.Intn(3))))}
+		user, pw := "user"+fmt.Sprint(g.Intn(3)), []byte("pw"+fmt.Sprint(g.Intn(3)))
+		switch g.Intn(8) {
+		case 0:
+			pw = []byte{} // well-formed PLAIN with an empty password
+		case 1:
+			user = "gwuser" // the gateway's own user name (when it has one), wrong or empty password
+			if g.Bool(0.5) {
+				pw = []byte{}
+			}
+		}
+		return refsn.Pkt{Type: refsn.AUTH, AuthMethod: "PLAIN", Data: refsn.PlainAuth(user, pw)}
 	case 1:
 		return refsn.Pkt{Type: refsn.AUTH, AuthMethod: "PLAIN", Data: []byte("no-nul-at-all")}
 	case 2:
